@@ -83,6 +83,15 @@ MUTANTS = [
     ("visit-seq-position-before-write", "src/impl_serde.rs",
      "                    Some(el) => {\n                        dst.write(el);\n                        *position += 1;\n                    }\n                    None => break,",
      "                    Some(el) => {\n                        *position += 1;\n                        dst.write(el);\n                    }\n                    None => { *position += 1; break }", ["C17"]),
+    ("nth-leaks-skipped", "src/iter.rs",
+     "        unsafe {\n            ptr::drop_in_place(self.array.get_unchecked_mut(skipped));\n        }\n\n        self.next()",
+     "        let _ = skipped;\n\n        self.next()", ["C03"]),
+    ("into-vec-via-same-size-copy", "src/impl_alloc.rs",
+     "        Vec::from(self.into_boxed_slice())",
+     "        let b = self.into_boxed_slice();\n        let mut v = Vec::with_capacity(b.len());\n        v.extend(Vec::from(b));\n        v", ["C15"]),
+    ("iter-clone-reversed-contents", "src/iter.rs",
+     "for (dst, src) in iter.array.as_mut_slice().iter_mut().zip(self.as_slice()) {",
+     "for (dst, src) in iter.array.as_mut_slice().iter_mut().zip(self.as_slice().iter().rev()) {", ["C06"]),
     ("revert-fix-nth", "src/iter.rs",
      "        let skipped = self.index..next_index;\n        self.index = next_index;\n\n        unsafe {\n            ptr::drop_in_place(self.array.get_unchecked_mut(skipped));\n        }",
      "        unsafe {\n            ptr::drop_in_place(self.array.get_unchecked_mut(self.index..next_index));\n        }\n        self.index = next_index;", ["C05"]),
